@@ -7,6 +7,9 @@ package sim
 // process restarts. Commands are observed through Queue.GetCommands() after every step.
 
 import (
+	"unsafe"
+	"reflect"
+	"encoding/json"
 	"context"
 	"fmt"
 	"hash/fnv"
@@ -910,12 +913,21 @@ func (p *provProfile) whatIf() {
 	a0, c0, i0 := p.digest()
 	writesBefore := s.store.evSeq
 	var errStr string
+	// the candidates (with the pods they carry) are collected once and reused by the following simulations, as a
+	// disruption pass does (binary search, single-node loop, validation): a simulation must leave them as it got them
+	reuse := p.ch.Pick("whatif.reuse", 2) == 1
+	var cands []*disruption.Candidate
+	var podsBefore, podsChanged string
 	t := s.RunAtomic("whatif", func(ctx context.Context) {
 		for i := 0; i < n; i++ {
-			cands, err := disruption.GetCandidates(ctx, p.e.Cluster, p.e.C, p.e.Rec, s.Clock, p.e.CP, func(context.Context, *disruption.Candidate) bool { return true }, disruption.GracefulDisruptionClass, q)
-			if err != nil {
-				errStr = err.Error()
-				return
+			if i == 0 || !reuse {
+				var err error
+				cands, err = disruption.GetCandidates(ctx, p.e.Cluster, p.e.C, p.e.Rec, s.Clock, p.e.CP, func(context.Context, *disruption.Candidate) bool { return true }, disruption.GracefulDisruptionClass, q)
+				if err != nil {
+					errStr = err.Error()
+					return
+				}
+				podsBefore = candidatePodsDigest(cands)
 			}
 			var pick []*disruption.Candidate
 			for j, c := range cands {
@@ -934,6 +946,9 @@ func (p *provProfile) whatIf() {
 			}
 			_, _ = disruption.SimulateScheduling(sctx, p.e.C, p.e.Cluster, pr, s.Clock, p.e.Rec, nil, pick...)
 			s.Probe("c18-simulation")
+			if after := candidatePodsDigest(cands); after != podsBefore && podsChanged == "" {
+				podsChanged = firstDiffLine(podsBefore, after)
+			}
 		}
 	})
 	if t.Panic != nil {
@@ -942,6 +957,10 @@ func (p *provProfile) whatIf() {
 	}
 	_ = errStr
 	p.d.whatIfs++
+	if podsChanged != "" {
+		s.Violate("C18", "simulation-changed-candidate-pods", "a scheduling simulation modified the pods of the candidates it was given (they are reused by the next simulation of the same pass): %s", podsChanged)
+		return
+	}
 	for _, w := range t.Writes {
 		if w.Fault == FNone {
 			s.Violate("C18", "simulation-wrote", "a scheduling simulation issued a write: %s %s %s %s", w.Seam, w.Verb, w.Kind, w.Key)
@@ -962,6 +981,25 @@ func (p *provProfile) whatIf() {
 	if i0 != i1 {
 		s.Violate("C18", "simulation-changed-instance-types", "provider instance types / offerings changed across a scheduling simulation: %s", firstDiffLine(i0, i1))
 	}
+}
+
+// candidatePodsDigest: one line per pod a candidate carries (its reschedulable pods, an unexported field read through
+// reflection), with the JSON of its spec.
+func candidatePodsDigest(cands []*disruption.Candidate) string {
+	var lines []string
+	for _, c := range cands {
+		f := reflect.ValueOf(c).Elem().FieldByName("reschedulablePods")
+		if !f.IsValid() {
+			continue
+		}
+		pods := *(*[]*corev1.Pod)(unsafe.Pointer(f.UnsafeAddr()))
+		for _, q := range pods {
+			b, _ := json.Marshal(q.Spec)
+			lines = append(lines, fmt.Sprintf("%s/%s %s", c.Name(), q.Name, b))
+		}
+	}
+	sort.Strings(lines)
+	return strings.Join(lines, "\n")
 }
 
 func firstDiffLine(a, b string) string {
